@@ -1,6 +1,6 @@
 package main
 
-import ("testing";"fmt")
+import ("testing";"fmt";"runtime";"runtime/debug")
 
 func TestCanon(t *testing.T) {
 	r := replay("clone", []uint8{evMark + 2, evMark + 4, evDrop, evFire, evXPF})
@@ -10,3 +10,5 @@ func TestCanon(t *testing.T) {
 	c = r.w.canon()
 	fmt.Println(len(c), c)
 }
+
+func init() { installSeam(); debug.SetGCPercent(100); runtime.GOMAXPROCS(1) }
